@@ -10,6 +10,7 @@
    pass writes n bytes and a NUL beyond the new length.  What vsnprintf makes
    of a format is libc's (trusted base). *)
 From Robsd Require Export Base.Bytes Ks.VectorDefs.
+From RobsdGen Require Gen_KsConst.
 Local Open Scope Z_scope.
 
 Inductive bop :=
@@ -89,7 +90,8 @@ Definition bstep (b : buf) (op : bop) : buf * bout :=
   | BPuts s => bputs b s
   | BPutc c => bputs b [c]
   | BPrintf s =>
-      match breserve b (zlen s + 1) with
+      (* the reservation is the expression regenerated from buffer_vprintf: (size_t)n + 1 *)
+      match breserve b (Gen_KsConst.printf_reserve (zlen s)) with
       | None => (b, BoInt 1)
       | Some siz =>
           if siz - zlen (b_data b) <=? zlen s then (mkbuf siz (b_data b), BoInt 1)
